@@ -17,6 +17,8 @@ import os
 import numpy as np
 
 from vf import core
+from vf import callforms
+from vf import errorpaths
 from vf import solverlib as sl
 from vf.oracles import most, riccati
 
@@ -274,6 +276,9 @@ def run(ctx):
         "resolves is judged separately for p and q at two heights; non-trivial = ladders with >= 8 resolved modes and at least one judged pair; evaluations counts solver executions"
     )
     ctx.assumptions += ["reference: scipy DOP853 rtol=1e-11 on the Riccati form; decaying constant-coefficient continuation above the top node"]
+    callforms.run_solver_forms(ctx)
+    errorpaths.run(ctx, case_ladder, [c for c in cases(ctx.tier) if c.get('family') == 'power' and c['zgrid'] == 'geom' and c['orient'] == 'oblique' and c['dom'][0] > 1000][:2])
+    ctx.run_cases(errorpaths.case_blocked_pyfftw, [{"blocked": "pyfftw"}], sub="pyfftw cannot be imported: refuse or be right", chunksize=1)
     res = ctx.run_cases(case_ladder, cases(ctx.tier), sub="ladder", chunksize=1)
     ctx.run_cases(case_field_ladder, field_cases(ctx.tier), sub="field-ladder-with-halo", chunksize=1)
     ctx.cov["mode_pairs_judged"] = int(sum(r.get("obs", {}).get("mode_pairs_judged", 0) for r in res))
